@@ -186,8 +186,8 @@ def escaping_case(r, s, rng, i):
                     if back != exp.strip() and back.replace(' ', '') != exp.strip().replace(' ', ''):
                         r.violate('verbatim-altered:%s:%s' % (fname, kind), 'verbatim %s slot holds %r, source has %r' % (kind, back, exp), case, core.show(src, 500))
             else:
-                if where == 'verbatim':
-                    continue        # verbatim environments carry raw text in LaTeX
+                if where == 'verbatim' and kind != 'code-span':
+                    continue        # verbatim environments and math carry raw text in LaTeX; a code span is \texttt{...} and needs escaping
                 body = strip_markup(seg_s, fname)
                 if not LATEX_OK.match(body):
                     r.violate('unescaped:%s:%s:%s' % (fname, where, kind if where != 'text' else 'text'), 'reserved character %r from a %s slot reaches %s unescaped: %r' % (p, kind, fname, seg_s[:60]), case, core.show(src, 500))
